@@ -42,7 +42,13 @@ Blame ==
   @@ "exit.loop"  :> {"C03"}
   @@ "exit.loop.closed" :> {"C03", "C05"}
   @@ "exit.loop.callback" :> {"C03"}
-  @@ "cb.pb.undrained" :> {"C04", "C05", "C03"}
+  @@ "cb.pb.undrained.mailbox" :> {"C04", "C05", "C03"} @@ "cb.pb.undrained.ctx" :> {"C04", "C03"} @@ "cb.pb.undrained.parent" :> {"C16"}
+  @@ "cb.pb.undrained.timer" :> {"C10", "C03"} @@ "cb.pb.undrained.broker" :> {"C09"} @@ "cb.pb.undrained.stream" :> {"C13"}
+  @@ "hb.phase.failed.timeout" :> {"C11", "C06"} @@ "hb.phase.failed.panic" :> {"C06", "C03"} @@ "hb.phase.failed.startErr" :> {"C06", "C03"}
+  @@ "hb.phase.failed.cancel" :> {"C06"}
+  @@ "oe.res.failed.timeout" :> {"C11", "C06", "C02"} @@ "oe.res.failed.panic" :> {"C06", "C02"} @@ "oe.res.failed.startErr" :> {"C06", "C02", "C03"}
+  @@ "oe.res.failed.cancel" :> {"C06", "C02"}
+  @@ "tf.state.failed" :> {"C10", "C06"} @@ "adv.pending.failed" :> {"C10", "C06"}
   @@ "exit.how"   :> {"C06"}
   @@ "exit.client.await" :> {"C04"} @@ "exit.client.await_ref" :> {"C04"} @@ "exit.client.halt" :> {"C04"} @@ "exit.client.try_halt" :> {"C04"}
   @@ "exit.client.join" :> {"C17"} @@ "exit.client.call" :> {"C02"} @@ "exit.client.send" :> {"C02"}
